@@ -1127,6 +1127,9 @@ int module_load(
     if (elf == NULL)
       return ERROR_INSUFFICIENT_MEMORY;
 
+    // Free the structure allocated for the previous block, it's empty
+    // because the loop ends as soon as a header is parsed.
+    yr_free(module_object->data);
     module_object->data = elf;
     int class_data = get_elf_class_data(block_data, block->size);
 
